@@ -1,7 +1,229 @@
-/- Helper lemmas for C04 (statements of the property theorems are fixed in MysyncProofs/C04.lean). -/
+/- Helper lemmas for C04 (statements of the property theorems are fixed in MysyncProofs/C04.lean).
+Part 3: the complete fault-free iteration, (a) and (b).  Parts 1-2: ActiveNodesCalc, ActiveNodesTrace. -/
 import MysyncModel.App.ActiveNodes
+import MysyncProofs.Lemmas.ActiveNodesCalc
+import MysyncProofs.Lemmas.ActiveNodesTrace
 
 namespace ActiveNodesLemmas
 open NS Gtid ActiveNodes
+
+/-! #### fault-free iteration -/
+
+theorem adjustMaster_ok (i : UpdIn) (hok : ∀ c, i.fails c = false) (ss : SemiSyncState) (wsc : Int) :
+    (adjustMaster i (some ss) wsc).2 = true := by
+  unfold adjustMaster
+  dsimp only
+  by_cases h0 : (wsc == 0) = true <;> by_cases h1 : ss.masterEnabled = true <;>
+    by_cases h2 : (ss.waitSlaveCount != wsc) = true <;> simp [h0, h1, h2, hok]
+
+/-- a successful `adjustSemiSyncOnMaster` from the state described by the snapshot leaves the master
+waiting for exactly `wsc` acknowledgements -/
+theorem effWait_run_adjustMaster (i : UpdIn) (hok : ∀ c, i.fails c = false) (ss : SemiSyncState) (wsc : Int) (w : World)
+    (hme : w.masterEnabled = ss.masterEnabled) (hwc : w.waitCount = ss.waitSlaveCount) :
+    effWait (w.run i.master (adjustMaster i (some ss) wsc).1) = wsc := by
+  obtain ⟨se, me, wc, pub⟩ := w
+  dsimp only at hme hwc
+  unfold adjustMaster
+  dsimp only
+  by_cases h0 : wsc = 0 <;> by_cases h1 : ss.masterEnabled = true <;> by_cases h2 : ss.waitSlaveCount = wsc <;>
+    simp [h0, h1, h2, hme, hwc, hok, World.run, World.applyEv, World.apply, effWait] <;> omega
+
+theorem enableLoop_ok (i : UpdIn) (hok : ∀ c, i.fails c = false) (hs : List String) (wsc : Int) (active : List String) :
+    (enableLoop i hs wsc active).2 = (wsc, active) := by
+  induction hs generalizing wsc active with
+  | nil => rfl
+  | cons a r ih =>
+    rw [enableLoop_cons_snd]
+    have : enableOk i a = true := by simp [enableOk, hok]
+    rw [if_pos this, ih]
+
+/-- `SetActiveNodes` -/
+def setPublished (w : World) (l : List String) : World := ⟨w.slaveEnabled, w.masterEnabled, w.waitCount, l⟩
+
+theorem run_publishPart_ok (i : UpdIn) (hok : ∀ c, i.fails c = false) (w : World) (a : List String) :
+    w.run i.master (publishPart i a) = setPublished w a := by
+  unfold publishPart
+  dsimp only
+  split <;> simp [hok, World.run, World.applyEv, World.apply, setPublished]
+
+theorem seg1_ok (cfg : Cfg) (i : UpdIn) (hok : ∀ c, i.fails c = false) (ss : SemiSyncState) (hms : msOf i = some ss) :
+    (seg1 cfg i).2 = true := by
+  unfold seg1
+  split
+  · rw [hms]; exact adjustMaster_ok i hok ss _
+  · rfl
+
+/-- the fault-free iteration, segment by segment -/
+theorem run_updateSemiSync_ok (cfg : Cfg) (i : UpdIn) (w : World) (hok : ∀ c, i.fails c = false)
+    (ss : SemiSyncState) (hms : msOf i = some ss) :
+    w.run i.master (updateSemiSync cfg i) =
+      setPublished (((((w.run i.master (seg1 cfg i).1).run i.master (seg2 i)).run i.master (seg3 i)).run i.master
+          (loopOf cfg i).1).run i.master (seg5 cfg i)) i.active := by
+  have hl : (loopOf cfg i).2.2 = i.active := by
+    unfold loopOf; rw [enableLoop_ok i hok]
+  rw [updateSemiSync_eq]
+  simp only [hok, seg1_ok cfg i hok ss hms, Bool.false_eq_true, if_false, Bool.not_true, hl]
+  rw [List.cons_append, List.cons_append, List.cons_append, List.cons_append, List.cons_append, run_cons]
+  simp only [run_append, run_publishPart_ok i hok]
+  rfl
+
+theorem flatMap_disableRestart_slaveEnabled (i : UpdIn) (hok : ∀ c, i.fails c = false) (l : List String) (w : World)
+    (h : String) (hh : h ∈ (w.run i.master (l.flatMap (disableRestart i))).slaveEnabled) :
+    h ∈ w.slaveEnabled ∧ h ∉ l := by
+  induction l generalizing w with
+  | nil => exact ⟨hh, by simp⟩
+  | cons a r ih =>
+    rw [List.flatMap_cons, run_append] at hh
+    obtain ⟨h1, h2⟩ := ih _ hh
+    have h3 : h ∈ w.slaveEnabled ∧ h ≠ a := by
+      unfold disableRestart at h1
+      simp only [hok, Bool.false_eq_true, if_false, Bool.not_false, run_cons, run_nil, applyEv_ok] at h1
+      simp only [World.apply] at h1
+      split at h1 <;> simpa using h1
+    exact ⟨h3.1, by simp [h3.2, h2]⟩
+
+/-- the semi-sync world described by the snapshot the iteration works from (same as `C04.WorldMatches`) -/
+def WorldMatches (i : UpdIn) (w : World) : Prop :=
+  (∀ h, h ∈ w.slaveEnabled ↔ ∃ s ss, i.cs.get? h = some s ∧ s.semiSync = some ss ∧ ss.slaveEnabled = true) ∧
+  (∃ ms ss, i.cs.get? i.master = some ms ∧ ms.semiSync = some ss ∧ w.masterEnabled = ss.masterEnabled ∧ w.waitCount = ss.waitSlaveCount) ∧
+  w.published = i.oldActive
+
+theorem WorldMatches.msOf {i : UpdIn} {w : World} (hw : WorldMatches i w) :
+    ∃ ss, msOf i = some ss ∧ w.masterEnabled = ss.masterEnabled ∧ w.waitCount = ss.waitSlaveCount := by
+  obtain ⟨-, ⟨ms, ss, h1, h2, h3, h4⟩, -⟩ := hw
+  exact ⟨ss, by simp [ActiveNodesLemmas.msOf, h1, h2], h3, h4⟩
+
+/-- (a) after a complete fault-free iteration (the hypothesis `i.master ∉ becomeActive` of the C04
+statement is not needed) -/
+theorem complete_iteration_restores_A (cfg : Cfg) (i : UpdIn) (w : World)
+    (hw : WorldMatches i w) (hok : ∀ c, i.fails c = false)
+    (hchg : i.changes.becomeInactive = filterOut ((i.cs.filter fun e => match e.2.semiSync with | some ss => ss.slaveEnabled | none => false).map (·.1)) i.active)
+    (hsub : ∀ h, h ∈ i.changes.becomeActive → h ∈ i.active) :
+    ∀ h, h ∈ (w.run i.master (updateSemiSync cfg i)).slaveEnabled → h ∈ (w.run i.master (updateSemiSync cfg i)).published := by
+  obtain ⟨ss, hms, -, -⟩ := hw.msOf
+  rw [run_updateSemiSync_ok cfg i w hok ss hms]
+  intro h hh
+  show h ∈ i.active
+  replace hh : h ∈ (((((w.run i.master (seg1 cfg i).1).run i.master (seg2 i)).run i.master (seg3 i)).run i.master
+          (loopOf cfg i).1).run i.master (seg5 cfg i)).slaveEnabled := hh
+  have h5 := slaveEnabled_run_of_notSetSlave _ _ _ _ ((seg5_calls cfg i).mono (isMasterCall_notSetSlave _)) hh
+  rcases mem_slaveEnabled_run _ _ _ _ h5 with h4 | h4
+  · have h3 := slaveEnabled_run_of_notSetSlave _ _ _ _ ((seg3_calls i).mono (isDisableCall_notSetSlave _)) h4
+    obtain ⟨h2, hni⟩ := flatMap_disableRestart_slaveEnabled i hok _ _ h h3
+    have h1 := slaveEnabled_run_of_notSetSlave _ _ _ _ ((seg1_calls cfg i).mono (isMasterCall_notSetSlave _)) h2
+    obtain ⟨s, ss', hg, hs1, hs2⟩ := (hw.1 h).mp h1
+    rw [hchg, mem_filterOut] at hni
+    apply Classical.byContradiction
+    intro hna
+    apply hni
+    refine ⟨?_, hna⟩
+    simp only [List.mem_map, List.mem_filter]
+    exact ⟨(h, s), ⟨get?_mem _ _ _ hg, by simp [hs1, hs2]⟩, rfl⟩
+  · have := loopOf_calls cfg i _ h4
+    exact hsub h (by simpa [isEnableCall] using this)
+
+theorem effWait_congr {w w' : World} (h1 : w'.masterEnabled = w.masterEnabled) (h2 : w'.waitCount = w.waitCount) :
+    effWait w' = effWait w := by
+  simp [effWait, h1, h2]
+
+theorem effWait_setPublished (w : World) (l : List String) : effWait (setPublished w l) = effWait w := rfl
+
+theorem beforeAfter_cases (cfg : Cfg) (i : UpdIn) :
+    (wscOf cfg i = oldWscOf i ∧ beforeAfter cfg i = (false, false)) ∨
+    beforeAfter cfg i = (true, false) ∨ beforeAfter cfg i = (false, true) := by
+  unfold beforeAfter
+  rcases Int.lt_trichotomy (wscOf cfg i) (oldWscOf i) with h | h | h
+  · have h' : ¬ wscOf cfg i > oldWscOf i := by omega
+    cases cfg.masterFirst <;> simp [h, h']
+  · left
+    have h1 : ¬ wscOf cfg i > oldWscOf i := by omega
+    have h2 : ¬ wscOf cfg i < oldWscOf i := by omega
+    cases cfg.masterFirst <;> simp [h]
+  · have h' : ¬ wscOf cfg i < oldWscOf i := by omega
+    cases cfg.masterFirst <;> simp [h, h']
+
+/-- (b) after a complete fault-free iteration without data-lagging replicas.  CORRECTED: the C04
+statement lacks `i.master ∉ i.changes.becomeInactive` (see `counterexample_B_master_becomeInactive`);
+its hypotheses `0 ≤ cfg.waitCount` and `i.master ∈ i.active` are not needed.  The master ends up
+waiting for exactly the required number. -/
+theorem complete_iteration_restores_B (cfg : Cfg) (i : UpdIn) (w : World)
+    (hw : WorldMatches i w) (hok : ∀ c, i.fails c = false) (hlag : i.changes.dataLag = [])
+    (hmi : i.master ∉ i.changes.becomeInactive) :
+    effWait (w.run i.master (updateSemiSync cfg i)) = req cfg (w.run i.master (updateSemiSync cfg i)).published := by
+  obtain ⟨ss, hms, hme, hwc⟩ := hw.msOf
+  rw [run_updateSemiSync_ok cfg i w hok ss hms]
+  show effWait _ = req cfg i.active
+  have hwsc : wscOf cfg i = req cfg i.active := by unfold wscOf; rw [hlag, filterOut_nil]
+  have hloop : (loopOf cfg i).2.1 = wscOf cfg i := by unfold loopOf; rw [enableLoop_ok i hok]
+  rw [← hwsc]
+  -- the middle segments leave the master's settings alone
+  have hmid : ∀ w1 : World,
+      ((((w1.run i.master (seg2 i)).run i.master (seg3 i)).run i.master (loopOf cfg i).1).masterEnabled = w1.masterEnabled) ∧
+      ((((w1.run i.master (seg2 i)).run i.master (seg3 i)).run i.master (loopOf cfg i).1).waitCount = w1.waitCount) := by
+    intro w1
+    have a2 := master_run w1 i.master _ ((seg2_calls i).mono (isDisableCall_noMasterEffect _ _ hmi))
+    have a3 := master_run (w1.run i.master (seg2 i)) i.master _
+      ((seg3_calls i).mono (isDisableCall_noMasterEffect _ _ (by rw [hlag]; simp)))
+    have a4 := master_run ((w1.run i.master (seg2 i)).run i.master (seg3 i)) i.master _
+      ((loopOf_calls cfg i).mono (isEnableCall_noMasterEffect _ _))
+    exact ⟨a4.1.trans (a3.1.trans a2.1), a4.2.trans (a3.2.trans a2.2)⟩
+  rw [effWait_setPublished]
+  rcases beforeAfter_cases cfg i with ⟨heq, hba⟩ | hba | hba
+  · -- nothing to adjust
+    have e1 : (seg1 cfg i).1 = [] := by simp [seg1, hba]
+    have e5 : seg5 cfg i = [] := by simp [seg5, hba]
+    rw [e1, e5, run_nil, run_nil, effWait_congr (hmid w).1 (hmid w).2, heq]
+    simp [effWait, oldWscOf, hms, hme, hwc]
+  · -- adjusted before the replicas
+    have e1 : (seg1 cfg i).1 = (adjustMaster i (some ss) (wscOf cfg i)).1 := by simp [seg1, hba, hms]
+    have e5 : seg5 cfg i = [] := by simp [seg5, hba]
+    rw [e5, run_nil, effWait_congr (hmid _).1 (hmid _).2, e1]
+    exact effWait_run_adjustMaster i hok ss _ w hme hwc
+  · -- adjusted after the replicas
+    have e1 : (seg1 cfg i).1 = [] := by simp [seg1, hba]
+    have e5 : seg5 cfg i = (adjustMaster i (some ss) (wscOf cfg i)).1 := by simp [seg5, hba, hms, hloop]
+    rw [e1, run_nil, e5]
+    exact effWait_run_adjustMaster i hok ss _ _ ((hmid w).1.trans hme) ((hmid w).2.trans hwc)
+
+/-- (b) in the terms of `invB`, with the side condition that the C04 statement lacks -/
+theorem complete_iteration_restores_B_partial (cfg : Cfg) (i : UpdIn) (w : World)
+    (hw : WorldMatches i w) (hok : ∀ c, i.fails c = false) (hlag : i.changes.dataLag = [])
+    (hmi : i.master ∉ i.changes.becomeInactive) :
+    invB cfg (w.run i.master (updateSemiSync cfg i)) = true := by
+  unfold invB
+  rw [complete_iteration_restores_B cfg i w hw hok hlag hmi]
+  exact decide_eq_true (Int.le_refl _)
+
+/-- (b) with the natural origin of the side condition: `becomeInactive` as `calcActiveNodesChanges`
+computes it without lagging replicas (the hypothesis `hchg` of (a)) and the master a member -/
+theorem complete_iteration_restores_B_partial_of_hchg (cfg : Cfg) (i : UpdIn) (w : World)
+    (hw : WorldMatches i w) (hok : ∀ c, i.fails c = false) (hlag : i.changes.dataLag = [])
+    (hchg : i.changes.becomeInactive = filterOut ((i.cs.filter fun e => match e.2.semiSync with | some ss => ss.slaveEnabled | none => false).map (·.1)) i.active)
+    (hm : i.master ∈ i.active) :
+    invB cfg (w.run i.master (updateSemiSync cfg i)) = true :=
+  complete_iteration_restores_B_partial cfg i w hw hok hlag (by rw [hchg, mem_filterOut]; exact fun h => h.2 hm)
+
+/-- the C04 statement of (b) is FALSE without `i.master ∉ i.changes.becomeInactive`: if the change set
+tells the iteration to switch the master's own semi-sync off, the master stops waiting while the
+published list still requires one acknowledgement (all other hypotheses of the C04 statement hold) -/
+theorem counterexample_B_master_becomeInactive :
+    let m : NodeState := { pingOk := true, isMaster := true, masterExecuted := some "", semiSync := some ⟨true, false, 1⟩ }
+    let a : NodeState := { pingOk := true, slave := some { state := .running, masterHost := "m" }, semiSync := some ⟨false, true, 1⟩ }
+    let i : UpdIn := { cs := [("m", m), ("a", a)], master := "m", oldActive := ["m", "a"], active := ["a", "m"],
+                       changes := ⟨[], ["m"], []⟩, ahead := fun _ => false, fails := fun _ => false }
+    let w0 : World := ⟨["a"], true, 1, ["m", "a"]⟩
+    let cfg : Cfg := ⟨true, 1, 30, 1000, false⟩
+    WorldMatches i w0 ∧ (∀ c, i.fails c = false) ∧ i.changes.dataLag = [] ∧ 0 ≤ cfg.waitCount ∧ i.master ∈ i.active ∧
+      invB cfg w0 = true ∧ invB cfg (w0.run i.master (updateSemiSync cfg i)) = false := by
+  intro m a i w0 cfg
+  refine ⟨⟨?_, ?_, rfl⟩, fun _ => rfl, rfl, by decide, by decide, by decide +kernel, by decide +kernel⟩
+  · intro h
+    by_cases hm : "m" = h
+    · subst hm; simp [i, m, w0, ClusterState.get?]
+    · by_cases ha : "a" = h
+      · subst ha; simp [i, a, w0, ClusterState.get?]
+      · have : ¬ h = "a" := fun e => ha e.symm
+        simp [i, w0, ClusterState.get?, hm, ha, this]
+  · exact ⟨m, ⟨true, false, 1⟩, rfl, rfl, rfl, rfl⟩
 
 end ActiveNodesLemmas
